@@ -4,9 +4,7 @@ import (
 	"encoding/hex"
 	"fmt"
 	"math/big"
-	"os"
 	"strings"
-	"sync/atomic"
 	"time"
 
 	"github.com/mmcloughlin/addchain/verifhooks"
@@ -30,53 +28,96 @@ func init() {
 	}
 }
 
-// c13Current is the expression being evaluated (for the watchdog).
-var c13Current atomic.Value
-var c13Started int64
+// A calc.Eval call that does not return is an outcome of that case (`timeout`), not a harness
+// failure: every call runs on a worker goroutine with a per-case budget. On expiry the worker is
+// abandoned (its goroutine is leaked) and a fresh one is started; after c13MaxTimeouts expiries no
+// further case containing '^' is evaluated, so abandoned workers cannot pile up.
+const (
+	c13Budget      = 2 * time.Second
+	c13MaxTimeouts = 8
+)
 
-// c13Watchdog aborts the harness when one calc.Eval call does not return: the generators never
-// produce exponent towers on the unchanged code, but a changed precedence table could.
-func c13Watchdog() {
+type c13Result struct {
+	x        *big.Int
+	err      error
+	panicked string
+}
+
+type c13Worker struct {
+	in  chan string
+	out chan c13Result
+}
+
+var (
+	c13W        *c13Worker
+	c13Timeouts int
+)
+
+func c13NewWorker() *c13Worker {
+	w := &c13Worker{in: make(chan string), out: make(chan c13Result, 1)}
 	go func() {
-		for {
-			time.Sleep(2 * time.Second)
-			st := atomic.LoadInt64(&c13Started)
-			if st != 0 && time.Now().UnixNano()-st > int64(60*time.Second) {
-				fmt.Fprintf(os.Stderr, "calc.Eval did not return within 60s on %q\n", c13Current.Load())
-				os.Exit(3)
-			}
+		for expr := range w.in {
+			var r c13Result
+			r.panicked = safe(func() { r.x, r.err = verifhooks.CalcEval(expr) })
+			w.out <- r
 		}
 	}()
+	return w
+}
+
+// c13Eval runs calc.Eval(expr) with the per-case budget; ok is false on expiry.
+func c13Eval(expr string) (r c13Result, ok bool) {
+	if c13W == nil {
+		c13W = c13NewWorker()
+	}
+	c13W.in <- expr
+	select {
+	case r = <-c13W.out:
+		return r, true
+	default:
+	}
+	t := time.NewTimer(c13Budget)
+	defer t.Stop()
+	select {
+	case r = <-c13W.out:
+		return r, true
+	case <-t.C:
+		c13W = nil // abandoned; a new worker is started for the next case
+		return r, false
+	}
 }
 
 // c13Case evaluates expr with the real calc.Eval and writes
-// `c13 <expr hex> <ok|err|divzero|panic|panic-other> <value|->`: `divzero` is the error
-// "division by zero", `err` any other error, `panic` a recovered "division by zero" panic.
+// `c13 <expr hex> <ok|err|divzero|panic|panic-other|timeout> <value|->`: `divzero` is the error
+// "division by zero", `err` any other error, `panic` a recovered "division by zero" panic,
+// `timeout` a call that did not return within the per-case budget.
 func c13Case(g *Gen, expr string) {
-	var x *big.Int
-	var err error
 	if !c13Guard(expr) {
 		g.Count("guard-skipped-large-power")
 		return
 	}
-	c13Current.Store(expr)
-	atomic.StoreInt64(&c13Started, time.Now().UnixNano())
-	p := safe(func() { x, err = verifhooks.CalcEval(expr) })
-	atomic.StoreInt64(&c13Started, 0)
+	if c13Timeouts >= c13MaxTimeouts && strings.Contains(expr, "^") {
+		g.Count("guard-skipped-after-timeouts")
+		return
+	}
+	r, returned := c13Eval(expr)
 	outcome, val := "ok", "-"
 	switch {
-	case p == "division by zero":
+	case !returned:
+		outcome = "timeout"
+		c13Timeouts++
+	case r.panicked == "division by zero":
 		outcome = "panic"
-	case p != "":
+	case r.panicked != "":
 		outcome = "panic-other"
-	case err != nil && err.Error() == "division by zero":
+	case r.err != nil && r.err.Error() == "division by zero":
 		outcome = "divzero"
-	case err != nil:
+	case r.err != nil:
 		outcome = "err"
-	case x == nil:
+	case r.x == nil:
 		outcome = "nil-value"
 	default:
-		val = x.String()
+		val = r.x.String()
 	}
 	g.Line("c13", encHex(expr), outcome, val)
 	g.Count("impl=" + outcome)
@@ -164,7 +205,7 @@ func refEval(vals []*big.Int, ops []byte, maxExp int64, maxBits int) (*big.Int, 
 // large power. It replays the scanner and the two-stack algorithm of calc.go as it is on the unchanged
 // tree (including the application of a trailing operator by yard.result) with a capped power:
 // exponent at most 2000 and result at most 2^21 bits. Used only to filter generated inputs; a changed
-// calc.go is covered by the watchdog.
+// calc.go is covered by the per-case budget (outcome `timeout`).
 func c13Guard(expr string) bool {
 	if !strings.Contains(expr, "^") {
 		return true
@@ -421,8 +462,6 @@ func c13RandomWF(g *Gen, maxOps, bits, sp int) (string, []string, []byte) {
 }
 
 func genC13(g *Gen) {
-	c13Watchdog()
-
 	// 1. exhaustive over the small literal set
 	for n := 0; n <= g.pick(3, 4); n++ {
 		c13Exhaustive(g, n)
